@@ -132,8 +132,13 @@ class SymProv:
         for fact in idx.known_true(node):
             if isinstance(fact, tuple):
                 continue
-            for c in calls_in(fact):
-                callee = c.get("callee", "")
+            # the fact itself must be the validator call (or `.is_ok()` of it): a validator that is one side of an `||` is not known to hold
+            core = strip_transparent(fact)
+            cands = [core]
+            if core.get("k") == "MethodCall" and core.get("method") == "is_ok":
+                cands.append(strip_transparent(core["recv"]))
+            for c in cands:
+                callee = c.get("callee", "") if c.get("k") in ("Call", "MethodCall") else ""
                 if callee in VALIDATORS:
                     arg = c["args"][0] if c.get("k") == "Call" and c["args"] else (c.get("recv") if c.get("k") == "MethodCall" else None)
                     if arg is not None and self.root_local(body, arg) == target:
